@@ -45,6 +45,11 @@ def tree_scopes(tier, updates=1, ro=1, fill=1, growth=True, logs=True, rnd=True)
         # 16-byte keys with 16-byte alignment (the buffer then has to start at 8 mod 16)
         S("tree", type="T32u128u64", mode="bfs", slots=3, cap=3, keys="0,1,2,3", updates=0, ro=ro, fill=fill),
         S("tree", type="T8u128u8", mode="bfs", slots=3, cap=3, keys="0,1,2,3", updates=0, ro=0, fill=fill),
+        # unusual sizes: 3-byte keys, 12-byte values (odd record sizes), zero-sized values
+        S("tree", type="T8b3b12", mode="bfs", slots=3, cap=3, max_slots=4, keys="0,1,2,3", updates=0, ro=0, fill=fill),
+        S("tree", type="T32b3u32", mode="bfs", slots=3, cap=3, keys="0,1,2,255", updates=updates, ro=ro, fill=fill),
+        S("tree", type="T32u32unit", mode="bfs", slots=3, cap=3, keys="0,1,2,3", updates=0, ro=ro, fill=fill),
+        S("tree", type="T8u8unit", mode="bfs", slots=3, cap=3, max_slots=4, keys="0,1,2,3", updates=0, ro=0, fill=fill),
         # oracle-only: a value type whose Default is not all-zero bytes
         S("tree", type="T32u32bps", mode="bfs", slots=3, cap=3, keys="0,1,2,3", updates=0, ro=ro, fill=fill, nodriver=1),
         S("tree", type="T8u8bps", mode="bfs", slots=3, cap=3, max_slots=4, keys="0,1,2,3", updates=0, ro=0, fill=fill, nodriver=1),
@@ -151,6 +156,7 @@ def hset_scopes(tier, fill=1, rnd=True):
         S("hset", type="HWeak", mode="bfs", slots=1, cap=1, vals=keys(4), fill=fill),
         S("hset", type="HA32", mode="bfs", slots=3, cap=3, vals=keys(5), fill=fill),
         S("hset", type="HU128", mode="bfs", slots=3, cap=3, vals=keys(5), fill=fill),
+        S("hset", type="HB12", mode="bfs", slots=3, cap=3, vals=keys(5), fill=fill),
         # oracle-only (types outside the model): equality/hash on part of the value; non-zero Default
         S("hset", type="HTicket", mode="bfs", slots=3, cap=3, vals=keys(4), fill=0, nodriver=1),
         S("hset", type="HBps", mode="bfs", slots=3, cap=3, vals="0,1,2,10000", fill=fill, nodriver=1),
@@ -188,6 +194,8 @@ def aset_scopes(tier, fill=1, rnd=True, logs=True):
         S("aset", type="A64u64", mode="bfs", slots=4, vals="0,1,5,18446744073709551615,7", fill=fill),
         S("aset", type="A32u64", mode="bfs", slots=0, max_slots=2, vals="1,2,3", fill=fill),
         S("aset", type="A16u32", mode="bfs", slots=4, vals=keys(6, 1), fill=fill),
+        S("aset", type="A8b3", mode="bfs", slots=3, max_slots=4, vals=keys(5, 1), fill=fill),
+        S("aset", type="A16b12", mode="bfs", slots=3, vals=keys(4, 1), fill=fill),
     ]
     if logs:
         q += [
